@@ -132,7 +132,7 @@ class UrlKernels(Stream):
 
 class OptionsStream(Stream):
     name = "options-header"
-    corpus = [{"v": hs(s)} for s in ["", "form-data", 'form-data; name="a"', 'form-data; name="a"; filename="f.txt"', 'form-data; name=a; filename=b', 'form-data; name="a;b"; filename="c\\\\d"', 'form-data; name="q\\"q"', 'form-data; name="%22"', "text/plain; charset=utf-8", "text/plain;charset=UTF-8 ; x=y", 'a; b="c', "a; =b", "a; b", 'a; b*0="x"; b*1="y"', "a; b=c; b=d", ' a ; B="C" ', "a;b=c;;d=e", 'a; b=""', "a; b=c d; e=f", 'form-data; name="a"; name="b"', "; a=b", 'x; a="\\\\"; b="\\""']]
+    corpus = [{"v": hs(s)} for s in ["", "form-data", 'form-data; name="a"', 'form-data; name="a"; filename="f.txt"', 'form-data; name=a; filename=b', 'form-data; name="a;b"; filename="c\\\\d"', 'form-data; name="q\\"q"', 'form-data; name="%22"', "text/plain; charset=utf-8", "text/plain;charset=UTF-8 ; x=y", 'a; b="c', "a; =b", "a; b", 'a; b*0="x"; b*1="y"', "a; b=c; b=d", ' a ; B="C" ', "a;b=c;;d=e", 'a; b=""', "a; b=c d; e=f", 'form-data; name="a"; name="b"', "; a=b", 'x; a="\\\\"; b="\\""', "a; *0=x", "a; *1=x; b*0=y", "é ;*0=*1utf-8"]]
 
     def cases(self, rng, tier):
         for _ in range(1500 if tier == "quick" else 25000):
